@@ -25,11 +25,11 @@ reader: the scaffold names in the order of the file must be unique and in the or
 unloc scaffold of that file, in the file's order, localised = no exactly for unlocs (and no such CSV otherwise).  This includes
 the files of Primary-tag mode (--help: "Primary in a multi-haplotype Pretext map where only one of the haplotypes is being
 curated"): *.primary.curated.* and the file of everything else, *.all_haplotigs.curated.*.
-NOT generated (reported as a violation of the UNCHANGED tree, round 5): Primary-tag maps whose *.all_haplotigs.* file is put
-together from two or more assemblies that are not already in the statement's order when written one after the other in the
-order of their first appearance in the map: a third haplotype (SUPER_1 twice in one file), sequence of no haplotype that comes
-in the map before the first scaffold of the second haplotype, or whose names sort before the second haplotype's unplaced names.
-The generator keeps sequence of no haplotype behind every scaffold of the other haplotype and gives it lower-case names.
+The *.all_haplotigs.* file is put together from several assemblies (the other haplotype, sequence of no haplotype); it is one
+written file and is judged like any other: whatever the order of first appearance in the map and whatever the names (repaired
+in /repo 005733b; before, the parts were written one after the other unsorted).
+NOT generated: Primary-tag maps of three or more haplotypes (two non-curated haplotypes both hold a SUPER_1, which come
+together in *.all_haplotigs.*): the statement's quantifier says "one or two haplotypes".
 """
 
 import itertools
@@ -462,9 +462,11 @@ def written_names(text, ext):
             if cols[0] == "GAP":
                 continue
             name = cols[2]
+            fresh = False
         else:
             name = cols[0]
-        if not names or names[-1] != name:
+            fresh = cols[1] == "1"  # AGP: the object coordinates start again: another scaffold, even under the same name
+        if not names or names[-1] != name or fresh:
             names.append(name)
     return names
 
@@ -941,16 +943,18 @@ def primary_written_case(haps, primary, tagged, n_groups, extras, n_nohap, bpt, 
     the Primary tag.  n_groups pairs of painted homologues (A then B); tagged: every painted scaffold carries its haplotype's
     tag (else the haplotypes are known from the input names <HAP>_SCAFFOLD_<n> alone); extras: "unloc" an Unloc piece on the last
     chromosome of the OTHER haplotype, "named" a painted pair tagged Z, "haplotig" a Haplotig piece; unplaced scaffolds of both
-    haplotypes; then, BEHIND every scaffold of the other haplotype, n_nohap unplaced scaffolds that belong to no haplotype
-    (scaffold_<n>) and, at texel size 10, one more that is too short to be in the map.
+    haplotypes; n_nohap unplaced scaffolds that belong to no haplotype, each ANYWHERE in the map (first scaffold of the map,
+    between the chromosomes, in front of / behind the other haplotype's scaffolds) under names that sort anywhere (scaffold_<n>,
+    unplaced_<n>, CTG<n>, MT, AAA<n>, ZZ<n>, ptg<n>l) and, at texel size 10, one more that is too short to be in the map.
+    Never three haplotypes: the statement quantifies over one or two.
     The command line writes P to *.primary.curated.* and everything else that is curated to *.all_haplotigs.curated.*
     """
     p_hap, o_hap = haps[primary], haps[1 - primary]
     inp = []
 
-    def src(h, lengths):
+    def src(h, lengths, name=None):
         i = len(inp) + 1
-        name = f"{h.upper()}_SCAFFOLD_{i}" if h else f"scaffold_{i}"
+        name = name or (f"{h.upper()}_SCAFFOLD_{i}" if h else f"scaffold_{i}")
         sc = pg.make_scaffold(name, lengths, [rng.choice((1, -1)) for _ in lengths], [(10, "scaffold")] * (len(lengths) - 1), "fasta", tag=str(i))
         inp.append(sc)
         return sc
@@ -973,11 +977,14 @@ def primary_written_case(haps, primary, tagged, n_groups, extras, n_nohap, bpt, 
         plan.append({"painted": False, "hap": None, "name_tag": None, "pieces": [whole(src(h, [rng.choice((70, 90, 120))]))]})
     if "haplotig" in extras:
         plan.append({"painted": False, "hap": None, "name_tag": None, "pieces": [whole(src(o_hap, [80]), ["Haplotig"])]})
+    forms = ["scaffold_{}", "unplaced_{}", "CTG{}", "MT", "AAA{}", "ZZ{}", "ptg{}l"]
+    rng.shuffle(forms)
     for _ in range(n_nohap):
-        plan.append({"painted": False, "hap": None, "name_tag": None, "pieces": [whole(src(None, [rng.choice((40, 70, 150))]))]})
+        sc = src(None, [rng.choice((40, 70, 150))], name=forms.pop().format(len(inp) + 1))
+        plan.insert(rng.randint(0, len(plan)), {"painted": False, "hap": None, "name_tag": None, "pieces": [whole(sc)]})
     if bpt > 7 and n % 2:
-        src(None, [7])  # shorter than a texel: absent from the map, of no haplotype
-    first = next(k for k, sc in enumerate(plan) if sc["painted"] and sc["of"] == p_hap)
+        src(None, [7], name=forms.pop().format(len(inp) + 1))  # shorter than a texel: absent from the map, of no haplotype
+    first = next(k for k, sc in enumerate(plan) if sc["painted"] and sc.get("of") == p_hap)
     for sc in plan:
         sc.pop("of", None)
     mp = pg.plan_to_map(plan, bpt, rng)
@@ -993,8 +1000,9 @@ def primary_written_case(haps, primary, tagged, n_groups, extras, n_nohap, bpt, 
 def primary_written_cases(tier, rng):
     """
     ENUMERATED scope "the files of Primary-tag mode": primary_written_case for each haplotype tag set x curated haplotype (first /
-    second of the map) x haplotype tags present / names only x 0, 1 or 2 unplaced scaffolds of no haplotype (with 0 and no absent
-    scaffold the all_haplotigs file is one assembly, else it is put together from two) x 1-3 pairs of chromosomes x extras (Unloc
+    second of the map) x haplotype tags present / names only x 0, 1 or 2 unplaced scaffolds of no haplotype in seeded places of the
+    map under names that sort in front of, between and behind the other names (with 0 and no absent scaffold the all_haplotigs
+    file is one assembly, else it is put together from two) x 1-3 pairs of chromosomes x extras (Unloc
     on the other haplotype, a named pair Z, a Haplotig).  quick: pairs / extras / texel size rotate; thorough: every subset of
     the extras x 1-3 pairs x texel sizes 1 and 10.
     """
